@@ -1001,7 +1001,7 @@ class SingleGrid(_PropertyGrid):
             self._grid[x][y] = agent
             if self._empties_built:
                 self._empties.discard(pos)
-            self._empty_mask[pos] = False
+            self._empty_mask[int(x), int(y)] = False
             agent.pos = pos
         else:
             raise Exception("Cell not empty")
@@ -1032,7 +1032,7 @@ class SingleGrid(_PropertyGrid):
         self._grid[x][y] = self.default_val()
         if self._empties_built:
             self._empties.add(pos)
-        self._empty_mask[agent.pos] = True
+        self._empty_mask[int(x), int(y)] = True
         agent.pos = None
 
 
@@ -1069,7 +1069,7 @@ class MultiGrid(_PropertyGrid):
             agent.pos = pos
             if self._empties_built:
                 self._empties.discard(pos)
-            self._empty_mask[agent.pos] = False
+            self._empty_mask[int(x), int(y)] = False
 
     def remove_agent(self, agent: Agent) -> None:
         """Remove the agent from the given location and set its pos attribute to None."""
@@ -1079,7 +1079,7 @@ class MultiGrid(_PropertyGrid):
         if self.is_cell_empty(pos):
             if self._empties_built:
                 self._empties.add(pos)
-            self._empty_mask[agent.pos] = True
+            self._empty_mask[int(x), int(y)] = True
         agent.pos = None
 
     def iter_neighbors(  # noqa: D102
